@@ -47,6 +47,10 @@ CLAIMS = {
             "Coq theorem over the output-stage model: the first chunk of a line is preceded by exactly column-1 columns of whitespace. The indent pass computing the columns is not modelled: 'statement-start column = nesting depth x indent_columns' is the contract K_indent, evaluated on every explored run against the generator's known depth; independence from the original indentation is validated by formatting two random layouts of each program. Tie: Render correspondence + oracle on generated block-structured programs (depth <= 6, per-line random indentation with tabs) x indent_columns x indent_with_tabs x output_tab_size.",
             "Trusted: as C17. The indent pass is covered by contract + oracle only; default brace style.",
             "DESIGN.md section 6 C18"),
+    "C19": ("proof",
+            "A translator regenerates, on every run, the table of all return sites of do_space() (359: rule logged, shape of the returned expression, option read) and fails loudly on any unknown shape; the Coq theorem C19_rules_faithful is re-proved by computation against the regenerated option registry: every site returns a constant under a non-option label or (a listed function of) the value of the VERY option it logs. Further theorems: what each shape can return relative to the configured value (only the lexical-exception shapes turn Remove into Add/Force), ensure_force_space only adds, and the column arithmetic of the decision (Remove 0, Force max(1,min_sp), Add at least that, Ignore keeps the original gap). Tie: translator + hook H2: every pair decided by space_text() on the explored runs (all sp_ options at each of the four values and random joint assignments over a corpus slice) is looked up by source line in the table and checked for the returned value and the gap; when the table theorem breaks, a targeted search sets the two confused options differently and looks for a concrete pair.",
+            "Trusted: Coq kernel (vm_compute), translators gen_space.py/gen_registry.py, hook H2, extraction/driver. do_space()'s branch conditions (which site fires for which pair) are not modelled; virtual-brace and trailing-comment adjustments are excluded from the gap check.",
+            "DESIGN.md section 6 C19"),
 }
 
 
